@@ -27,5 +27,7 @@ Definition report_conforms (w : world) (r : report_state) : bool := Bool.eqb (is
 
 (** input classes for which no status is documented and an exception escapes (known findings): the statement of
     [C20_exit_table] is about the worlds outside them *)
+(* [w_unreadable_target] plays no role in [documented]: a file that cannot be read does not change what the caller is told
+   (the run completes; C10 says what happens to that file). *)
 Definition in_scope (w : world) : bool :=
   negb (w_bad_line w) && match w_sarif w with SarifMalformed => false | _ => true end.
